@@ -137,6 +137,12 @@ public:
 				plainReg(t[1], t[2], rst, {});
 			} else { nd::Val &a = get(t[2]); if (a.isBit()) { Bit x = a.b(); setB(t[1], x); } else { UInt x = a.u(); setU(t[1], x); } }
 		}
+		else if (op == "negen") {
+			// negen NAME NEG [EN]: the enable output of negative register NEG as an ordinary signal (reference: the stall condition EN, or '1')
+			if (hinted()) { Bit e = *negEnable.at(t[2]); setB(t[1], e); }
+			else if (t.size() > 3) { Bit e = get(t[3]).b(); setB(t[1], e); }
+			else { Bit e = '1'; setB(t[1], e); }
+		}
 		else if (op == "blocker") {
 			nd::Val &a = get(t[2]);
 			if (a.isBit()) setB(t[1], retimingBlocker(a.b())); else setU(t[1], retimingBlocker(a.u()));
